@@ -292,54 +292,54 @@ theorem getOrCreate_good (s : St) (k : Nat) (sym : Bool) (nat : Nat) (owner drai
           (Good.trans (epochCounter_good _ d) (acquireTicket_good _ drain))) ?_
         exact allocEp_good _ _ (by simp [createRecord, freshEp]) (by simp [createRecord, freshEp])
 
-theorem refreshTtl_fields (E : Ep) (now : Nat) :
-    (refreshTtl E now).closed = E.closed ∧ (refreshTtl E now).connCloses = E.connCloses ∧
-    (refreshTtl E now).failed = E.failed ∧ (refreshTtl E now).key = E.key ∧
-    (refreshTtl E now).dead = E.dead := by
+theorem refreshTtl_fields (tmin : Nat) (E : Ep) (now : Nat) :
+    (refreshTtl tmin E now).closed = E.closed ∧ (refreshTtl tmin E now).connCloses = E.connCloses ∧
+    (refreshTtl tmin E now).failed = E.failed ∧ (refreshTtl tmin E now).key = E.key ∧
+    (refreshTtl tmin E now).dead = E.dead := by
   unfold refreshTtl
   split
   · simp
   · simp only
     split <;> (split <;> simp)
 
-theorem preWrite_fields (E : Ep) (now : Nat) :
-    (preWrite E now).closed = E.closed ∧ (preWrite E now).connCloses = E.connCloses ∧
-    (preWrite E now).failed = E.failed ∧ (preWrite E now).key = E.key ∧ (preWrite E now).dead = E.dead := by
+theorem preWrite_fields (tmin : Nat) (E : Ep) (now : Nat) :
+    (preWrite tmin E now).closed = E.closed ∧ (preWrite tmin E now).connCloses = E.connCloses ∧
+    (preWrite tmin E now).failed = E.failed ∧ (preWrite tmin E now).key = E.key ∧ (preWrite tmin E now).dead = E.dead := by
   unfold preWrite
-  have := refreshTtl_fields { E with wrote := if E.hasReply then E.wrote else true } now
+  have := refreshTtl_fields tmin { E with wrote := if E.hasReply then E.wrote else true } now
   simpa using this
 
-theorem onReply_fields (E : Ep) (now : Nat) :
-    (onReply E now).closed = E.closed ∧ (onReply E now).connCloses = E.connCloses ∧
-    (onReply E now).failed = E.failed ∧ (onReply E now).key = E.key ∧ (onReply E now).dead = E.dead := by
+theorem onReply_fields (tmin : Nat) (E : Ep) (now : Nat) :
+    (onReply tmin E now).closed = E.closed ∧ (onReply tmin E now).connCloses = E.connCloses ∧
+    (onReply tmin E now).failed = E.failed ∧ (onReply tmin E now).key = E.key ∧ (onReply tmin E now).dead = E.dead := by
   unfold onReply
   split
   · simp
-  · exact refreshTtl_fields E now
+  · exact refreshTtl_fields tmin E now
 
 theorem writeTo_good (s : St) (e : Nat) (out : WriteOutcome) : Good s (writeTo s e out).1 := by
   unfold writeTo
-  obtain ⟨a, b, c, d, f⟩ := preWrite_fields (s.eps e) s.now
+  obtain ⟨a, b, c, d, f⟩ := preWrite_fields s.ttlMin (s.eps e) s.now
   split
   · exact Good.refl s
   · cases out with
     | err =>
-      show Good s (retire (setEp s e (preWrite (s.eps e) s.now)) e)
+      show Good s (retire (setEp s e (preWrite s.ttlMin (s.eps e) s.now)) e)
       exact Good.trans (Good.setEp s e _ a b c d (by rw [f]; exact id)) (retire_good _ e)
     | ok =>
-      show Good s (setEp s e { (preWrite (s.eps e) s.now) with hasSent := true })
-      exact Good.setEp s e { (preWrite (s.eps e) s.now) with hasSent := true } a b c d
-        (by show _ → (preWrite (s.eps e) s.now).dead = true; rw [f]; exact id)
+      show Good s (setEp s e { (preWrite s.ttlMin (s.eps e) s.now) with hasSent := true })
+      exact Good.setEp s e { (preWrite s.ttlMin (s.eps e) s.now) with hasSent := true } a b c d
+        (by show _ → (preWrite s.ttlMin (s.eps e) s.now).dead = true; rw [f]; exact id)
     | short =>
-      show Good s (retire (setEp s e { (preWrite (s.eps e) s.now) with hasSent := true }) e)
+      show Good s (retire (setEp s e { (preWrite s.ttlMin (s.eps e) s.now) with hasSent := true }) e)
       exact Good.trans
-        (Good.setEp s e { (preWrite (s.eps e) s.now) with hasSent := true } a b c d
-          (by show _ → (preWrite (s.eps e) s.now).dead = true; rw [f]; exact id))
+        (Good.setEp s e { (preWrite s.ttlMin (s.eps e) s.now) with hasSent := true } a b c d
+          (by show _ → (preWrite s.ttlMin (s.eps e) s.now).dead = true; rw [f]; exact id))
         (retire_good _ e)
 
 theorem reply_good (s : St) (e : Nat) (ok : Bool) : Good s (reply s e ok) := by
   unfold reply
-  obtain ⟨a, b, c, d, f⟩ := onReply_fields (s.eps e) s.now
+  obtain ⟨a, b, c, d, f⟩ := onReply_fields s.ttlMin (s.eps e) s.now
   split
   · exact Good.refl s
   · split
